@@ -52,6 +52,14 @@ func (g *gen) history(nFeeds, nTrips int) []*gtfs.Realtime {
 		tt.assigned = g.coin(0.3)
 		pool = append(pool, tt)
 	}
+	// the same NYCT trip id on another service day: a distinct trip (start instant differs), a distinct journal entry
+	if len(pool) > 0 && g.coin(0.35) {
+		src := pool[g.r.Intn(len(pool))]
+		twin := &trackedTrip{id: src.id, route: append([]string{}, src.route...), vehicle: fmt.Sprintf("%dL %04d", g.r.Intn(2), g.r.Intn(3000)), assigned: g.coin(0.5)}
+		twin.id.HasStartDate = true
+		twin.id.StartDate = time.Date(2023, 11, 14+g.r.Intn(2), 0, 0, 0, 0, loadZone("America/New_York"))
+		pool = append(pool, twin)
+	}
 	var feeds []*gtfs.Realtime
 	now := int64(1699600000 + g.r.Intn(100000))
 	for f := 0; f < nFeeds; f++ {
